@@ -9,7 +9,7 @@ plugin cannot be parallelised or have its inputs freed.  Not decided: the window
 import ast
 
 from ..cfg import cfg_of, literals
-from ..dataflow import Defs, calls_in, stmt_of
+from ..dataflow import Defs, calls_in, provenance, stmt_of
 from ..index import N, AnalysisError, call_name, dotted, enclosing, head, norm, walk_body
 from ..pattern import find as pfind, has_fact, local_defined_as, pmatch
 from ..rules import COMPOUND, kw, node_calls, own_calls, prov_at
@@ -102,8 +102,72 @@ def run(chk):
         chk.check(ok2, "C09.R3", dc, e, "results are emitted before the already-sent part was cut off", site_text="sent_until cut precedes the emit split")
     single0 = [e for e in emits if isinstance(kw(e.value, "t"), ast.Name) and isinstance(e.value.func.value, ast.Name) and norm(e.value.func.value) == norm(e.targets[0].elts[0])]
     IB = norm(kw(single0[0].value, "t")) if single0 else None
-    ibd = [n for n, b in pfind(dc.node, f"{IB} = int(L_end - 2 * L_w[1] - 1)")] if IB else []
-    chk.check(bool(ibd), "C09.R3", dc, None, "validity limit does not depend on the end of the inputs and the look-ahead window", site_text="invalid_beyond = f(end, window_size[1])")
+    defs = Defs(dc.node)
+
+    def window_index(e):
+        """0 / 1 when `e` is the look-back / look-ahead component of self._get_window_size(), else None."""
+        if isinstance(e, ast.Subscript) and isinstance(e.slice, ast.Constant) and e.slice.value in (0, 1):
+            base = e.value
+            if isinstance(base, ast.Name):
+                v = defs.single(base.id)
+                base = v if v is not None else base
+            if isinstance(base, ast.Call) and (call_name(base) or "").endswith("_get_window_size"):
+                return e.slice.value
+        if isinstance(e, ast.Name):
+            ds = defs.defs.get(e.id, [])
+            if len(ds) == 1 and ds[0][2] == "assign-unpack" and isinstance(ds[0][0], ast.Call) and (call_name(ds[0][0]) or "").endswith("_get_window_size"):
+                tg = ds[0][1].targets[0]
+                if isinstance(tg, (ast.Tuple, ast.List)) and len(tg.elts) == 2:
+                    return [norm(t) for t in tg.elts].index(e.id)
+        return None
+
+    def limit_form(expr, what, base_ok, want_index, site):
+        """expr must read  <base> - k * window[want_index] - c  with k >= 1 and c >= 0."""
+        from ..linear import linear
+        syms = {}
+
+        def resolve(name):
+            if window_index(name) is not None:
+                return None
+            v = defs.single(name.id)
+            return v
+
+        try:
+            form = linear(expr, resolve)
+        except AnalysisError as ex:
+            chk.fail("C09.R3", dc, stmt_of(expr), f"{what} is not a linear expression of a boundary and a window: {ex}", site={"function": dc.qualname, "limit": site})
+            return
+        const = form.pop("1", 0)
+        wins, bases, other = {}, {}, {}
+        for sym, coef in form.items():
+            e = ast.parse(sym, mode="eval").body
+            wi = window_index(e)
+            if wi is not None:
+                wins[wi] = wins.get(wi, 0) + coef
+            elif base_ok(e):
+                bases[sym] = coef
+            else:
+                other[sym] = coef
+        ok = not other and list(bases.values()) == [1] and set(wins) == {want_index} and wins[want_index] <= -1 and const <= 0
+        chk.check(ok, "C09.R3", dc, stmt_of(expr), f"{what} is not `boundary - k * {'look-ahead' if want_index == 1 else 'look-back'} window - c` with k >= 1, c >= 0 (found boundary terms {bases}, window terms {wins}, constant {const}, other {other}): results / inputs within one window of the boundary are treated as final",
+                  site_text=f"do_compute: {site}", site={"function": dc.qualname, "limit": site})
+
+    ibv = defs.single(IB) if IB else None
+    chk.check(ibv is not None, "C09.R3", dc, None, "validity limit is not a single-assignment local of do_compute", site_text="invalid_beyond defined once")
+    if ibv is not None:
+        def is_end(e):
+            if isinstance(e, ast.Name):
+                v = defs.single(e.id)
+                return v is not None and ".end" in provenance(defs, v)
+            return isinstance(e, ast.Attribute) and e.attr == "end" or (isinstance(e, ast.Subscript) and ".end" in provenance(defs, e))
+        limit_form(ibv, "the validity limit of fresh results", is_end, 1, "invalid_beyond = end - k * window[1] - c")
+    cbc = [c for c in calls_in(dc.node) if call_name(c) == "self.cache_beyond" and len(c.args) == 3 and norm(c.args[2]) == "self.cached_input"]
+    chk.check(len(cbc) == 1, "C09.R3", dc, None, "input cache refresh not found", site_text="do_compute: cache_beyond(kwargs, limit, self.cached_input)")
+    if len(cbc) == 1:
+        limit_form(cbc[0].args[1], "the start of the input cache", lambda e: norm(e) == "self.sent_until", 0, "cache_inputs_beyond = sent_until - k * window[0] - c")
+    for c_ in cuts:
+        a_ = kw(c_.value.value, "allow_early_split")
+        chk.check(isinstance(a_, ast.Constant) and a_.value is False, "C09.R3", dc, c_, "the cut at sent_until may move earlier: results already sent are emitted again", site_text="cut at sent_until is strict")
     single = [e for e in emits if IB and norm(kw(e.value, "t")) == IB]
     chk.check(bool(single), "C09.R3", dc, None, "single-output results are not split at the validity limit", site_text="single-output: split(t=invalid_beyond)")
     su = [n for n in walk_body(dc.node) if isinstance(n, ast.Assign) and norm(n.targets[0]) == "self.sent_until"]
@@ -173,6 +237,16 @@ WITNESSES = [
       "self.cache_beyond(kwargs, cache_inputs_beyond, self.cached_input)\n        return result", "return result"),
     W("new input before cached input", "C09.R3", OVERLAP,
       "[self.cached_input[data_kind], chunk], self.allow_superrun", "[chunk, self.cached_input[data_kind]], self.allow_superrun"),
+    W("input cache starts after sent_until", "C09.R3", OVERLAP,
+      "cache_inputs_beyond = int(self.sent_until - 2 * window_size[0] - 1)", "cache_inputs_beyond = int(self.sent_until + 2 * window_size[0] - 1)"),
+    W("input cache keeps only half a look-back window", "C09.R3", OVERLAP,
+      "cache_inputs_beyond = int(self.sent_until - 2 * window_size[0] - 1)", "cache_inputs_beyond = int(self.sent_until - window_size[0] // 2 - 1)"),
+    W("windows crossed", "C09.R3", OVERLAP,
+      "invalid_beyond = int(end - 2 * window_size[1] - 1)", "invalid_beyond = int(end - 2 * window_size[0] - 1)"),
+    W("validity limit ignores the window", "C09.R3", OVERLAP,
+      "invalid_beyond = int(end - 2 * window_size[1] - 1)", "invalid_beyond = int(end - 1)"),
+    W("sent_until cut may move earlier", "C09.R3", OVERLAP,
+      "result = result.split(t=self.sent_until, allow_early_split=False)[1]", "result = result.split(t=self.sent_until, allow_early_split=True)[1]"),
     W("cache entry kept when it already starts at the split time", "C09.R4", OVERLAP,
       "cached[data] = chunk.split(t=prev_split, allow_early_split=True)[1]", "if data in cached and cached[data].start == prev_split:\n                    continue\n                cached[data] = chunk.split(t=prev_split, allow_early_split=True)[1]"),
     W("cache keeps the left part", "C09.R4", OVERLAP,
